@@ -16,6 +16,7 @@ Streams of C19 (hex = hex-encoded bytes).
   c19.record  hex                      out = out=<hex>;err=<hex>;fin=<eof|ueof|badver>
   c19.pairs   klen vlen                out = ok:<wire length> | PANIC:<class>
   c19.explore …                        out = ok | PANIC  (no model: exploration of handler entry points)
+  c19.handshake cuts uahex             out = same | differs:… | PANIC (no model: real crypto/tls handshakes, split vs unsplit)
   info  = v=<n>;cs=<list>;cm=<hex>;ex=<list>;cu=<list>;pt=<hex>     "-" = nothing recorded
 -/
 namespace Driver.C19
@@ -181,7 +182,12 @@ def streams : List Driver.Stream := [
   { name := "c19.link", model := linkModel, judge := judgeTotal },
   { name := "c19.record", model := recordModel, judge := judgeTotal },
   { name := "c19.pairs", model := pairsModel, judge := judgeTotal },
-  { name := "c19.explore", model := fun _ => "ok", judge := judgeTotal }
+  { name := "c19.explore", model := fun _ => "ok", judge := judgeTotal },
+  { name := "c19.handshake", model := fun _ => "same",
+    judge := fun _ out => if out == "same" then "ok"
+      else if out.startsWith "PANIC" then totalVerdict (observed out)
+      else if out.startsWith "differs" then segVerdict (α := String) (.ok "split") (.ok "whole")
+      else "bad:handshake:" ++ (out.take 80).toString }
 ]
 
 end Driver.C19
